@@ -203,7 +203,7 @@ func buildGroupID(
 	headerValue := onRequest.Headers[groupHeaderName]
 	obfuscatedHeaderValue := obfuscator.ObfuscateString(headerValue)
 	headerName := strings.ToLower(groupHeaderName)
-	groupID := headerName + ":" + strings.TrimSpace(obfuscatedHeaderValue)
+	groupID := headerName + ":" + obfuscatedHeaderValue
 
 	return groupID, limit.Grouped
 }
